@@ -423,6 +423,11 @@ func Record(args []string) {
 			nsteps = 1 << 30
 		}
 		peeked := 0 // how far ahead of absPos a Peek has looked without seeing the end
+		lag := 0
+		if isLong {
+			lag = []int{0, 1, 3}[(t-*n)%3]
+		}
+		var pending []int
 		for s := 0; s < nsteps; s++ {
 			var o op
 			if isLong {
@@ -445,7 +450,13 @@ func Record(args []string) {
 				if ev["out"] != "ret" || r < 0 || x.freed+r > x.absStart {
 					break
 				}
-				x.do(op{Op: "Free", N: r})
+				// Free discipline of the long streams: at once, or each token only after `lag` later tokens have been shifted
+				// (a parser that looks at the previous token): every shifted token is freed, so the memory clause applies
+				pending = append(pending, r)
+				for len(pending) > lag {
+					x.do(op{Op: "Free", N: pending[0]})
+					pending = pending[1:]
+				}
 				if s%64 == 0 {
 					x.do(op{Op: "Held"})
 				}
